@@ -43,6 +43,10 @@ const K_I32: &str = "e2e:untyped-int-i32-fallback";
 /// `xs: list[int] = []` is emitted as `let xs = vec![];` (annotation dropped): when the list is only sliced/indexed
 /// rustc cannot infer the element type and the build fails.
 const K_EMPTY_LIST: &str = "e2e:empty-list-literal-untyped";
+/// Residue of K_I32 after literals beyond i32 got an `i64` suffix (fix 9b0eb51): a local initialised with a literal
+/// that fits i32 is still typed i32 when its only use is under a cast, so `k + d` is i32 arithmetic; when the sum
+/// leaves i32 rustc rejects the program (`attempt to compute i32::MAX + 1_i32`).
+const K_I32_ARITH: &str = "e2e:int-local-i32-arithmetic";
 /// Variable operands in cast positions stay below this magnitude while K_I32 is open.
 const I32_SAFE: i64 = (1 << 31) - 16;
 
@@ -53,6 +57,7 @@ struct KnownOpen {
     range_ovf: bool,
     parse_cc: bool,
     i32_fallback: bool,
+    i32_arith: bool,
     empty_list: bool,
 }
 
@@ -386,6 +391,8 @@ enum ArgSpec {
     None,
     Small(i64),
     Len { neg: bool, delta: i64 },
+    /// a position inside the sequence: `idx(raw, len)` or, with `neg`, the same position counted from the end
+    In { raw: u16, neg: bool },
     Abs(i64),
 }
 
@@ -395,6 +402,10 @@ impl ArgSpec {
             ArgSpec::None => None,
             ArgSpec::Small(v) => Some(*v),
             ArgSpec::Len { neg, delta } => Some(if *neg { -(len as i64) + delta } else { len as i64 + delta }),
+            ArgSpec::In { raw, neg } => {
+                let k = vcore::gen::idx(*raw, len.max(1)) as i64;
+                Some(if *neg { k - len.max(1) as i64 } else { k })
+            }
             ArgSpec::Abs(v) => Some(*v),
         }
     }
@@ -414,7 +425,8 @@ fn extreme_s() -> BoxedStrategy<i64> {
 fn bound_s(none_weight: u32) -> BoxedStrategy<ArgSpec> {
     prop_oneof![
         none_weight => Just(ArgSpec::None),
-        4 => (-15i64..=15).prop_map(ArgSpec::Small),
+        5 => (any::<u16>(), any::<bool>()).prop_map(|(raw, neg)| ArgSpec::In { raw, neg }),
+        3 => (-15i64..=15).prop_map(ArgSpec::Small),
         3 => (any::<bool>(), -2i64..=2).prop_map(|(neg, delta)| ArgSpec::Len { neg, delta }),
         2 => extreme_s().prop_map(ArgSpec::Abs),
     ]
@@ -423,11 +435,11 @@ fn bound_s(none_weight: u32) -> BoxedStrategy<ArgSpec> {
 
 fn step_s() -> BoxedStrategy<ArgSpec> {
     prop_oneof![
-        3 => Just(ArgSpec::None),
-        6 => select(vec![1i64, -1, 2, -2, 3, -3, 5, -5]).prop_map(ArgSpec::Small),
+        6 => Just(ArgSpec::None),
+        12 => select(vec![1i64, -1, 2, -2, 3, -3, 5, -5]).prop_map(ArgSpec::Small),
         1 => Just(ArgSpec::Small(0)),
-        1 => (any::<bool>(), -1i64..=1).prop_map(|(neg, delta)| ArgSpec::Len { neg, delta }),
-        3 => extreme_s().prop_map(ArgSpec::Abs),
+        2 => (any::<bool>(), -1i64..=1).prop_map(|(neg, delta)| ArgSpec::Len { neg, delta }),
+        5 => extreme_s().prop_map(ArgSpec::Abs),
     ]
     .boxed()
 }
@@ -438,7 +450,7 @@ fn chars_s() -> BoxedStrategy<Vec<char>> {
 
 fn range_s() -> BoxedStrategy<Case> {
     let start = prop_oneof![3 => -20i64..=20, 3 => extreme_s(), 1 => any::<i64>()];
-    let step = prop_oneof![5 => select(vec![1i64, -1, 2, -2, 3, -3, 7, -7]), 1 => Just(0i64), 3 => extreme_s(), 1 => -1000i64..=1000];
+    let step = prop_oneof![10 => select(vec![1i64, -1, 2, -2, 3, -3, 7, -7]), 1 => Just(0i64), 5 => extreme_s(), 2 => -1000i64..=1000];
     prop_oneof![
         // constructed: end chosen so that the range has n elements (give or take `slack`), saturated into i64
         6 => (start.clone(), step.clone(), 0i128..=7, -2i128..=2).prop_map(|(a, c, n, slack)| {
@@ -545,6 +557,13 @@ impl Operand {
             _ => return None,
         };
         Some(Operand { value, form })
+    }
+}
+
+fn operand_has_i32_arith(o: &Operand) -> bool {
+    match &o.form {
+        OperandForm::Sum(d) => o.value.checked_sub(*d).is_some_and(|k| i32::try_from(k).is_ok()) && i32::try_from(o.value).is_err(),
+        _ => false,
     }
 }
 
@@ -842,6 +861,24 @@ impl EStmt {
         c.cast_operands_mut().iter().any(|o| operand_needs_i32_avoidance(o))
     }
 
+    /// The construct of known finding K_I32_ARITH: `k + d` in a cast position where k fits i32 and k + d does not.
+    fn has_i32_arith_construct(&self) -> bool {
+        let mut c = self.clone();
+        c.cast_operands_mut().iter().any(|o| operand_has_i32_arith(o))
+    }
+
+    /// Write the K_I32_ARITH construct as a literal (same argument value). Returns true when changed.
+    fn avoid_i32_arith(&mut self) -> bool {
+        let mut changed = false;
+        for o in self.cast_operands_mut() {
+            if operand_has_i32_arith(o) {
+                o.form = OperandForm::Lit;
+                changed = true;
+            }
+        }
+        changed
+    }
+
     /// Rewrite the K_I32 construct away (same argument values, written as literals). Returns true when changed.
     fn avoid_i32_fallback(&mut self) -> bool {
         let mut changed = false;
@@ -860,7 +897,7 @@ impl EStmt {
 
     /// Root-cause signature for a wrong result of this statement.
     fn overflow_key(&self) -> Option<&'static str> {
-        let all = KnownOpen { str_ovf: true, list_ovf: true, range_ovf: true, parse_cc: true, i32_fallback: true, empty_list: true };
+        let all = KnownOpen { str_ovf: true, list_ovf: true, range_ovf: true, parse_cc: true, i32_fallback: true, i32_arith: true, empty_list: true };
         self.known_construct(all)
     }
 
@@ -942,6 +979,8 @@ fn judge_program(stmts: &[EStmt], o: &FarmOut) -> Result<Vec<(usize, Fail)>, Str
             K_PARSE_CC.to_string()
         } else if text.contains("literal out of range for `i32`") && stmts.iter().any(|s| s.has_i32_fallback_construct()) {
             K_I32.to_string()
+        } else if (text.contains("arithmetic_overflow") || text.contains("attempt to compute")) && stmts.iter().any(|s| s.has_i32_arith_construct()) {
+            K_I32_ARITH.to_string()
         } else if text.contains("type annotations needed for `Vec<_>`") && stmts.iter().any(|s| s.has_empty_list_construct()) {
             K_EMPTY_LIST.to_string()
         } else if stmts.len() == 1 {
@@ -1361,6 +1400,7 @@ fn main() {
         range_ovf: out.is_known(K_RANGE_OVF),
         parse_cc: out.is_known(K_PARSE_CC),
         i32_fallback: out.is_known(K_I32),
+        i32_arith: out.is_known(K_I32_ARITH),
         empty_list: out.is_known(K_EMPTY_LIST),
     };
 
@@ -1411,6 +1451,32 @@ fn main() {
     // ---------------- known findings: canonical inputs
     let mut farm: Option<Farm> = None;
     replay_known(&mut out, &mut farm);
+
+    // ---------------- regression inputs: canonical inputs of findings that are no longer open (fixed) are judged
+    // like any other case; the end-to-end ones join the generated programs below
+    let mut regression_programs: Vec<Vec<EStmt>> = Vec::new();
+    {
+        let dir = vcore::verif_root().join("known").join("C05");
+        let mut files: Vec<std::path::PathBuf> = std::fs::read_dir(&dir).map(|rd| rd.flatten().map(|e| e.path()).collect()).unwrap_or_default();
+        files.sort();
+        for f in files {
+            if out.known.open.iter().any(|e| e.replay == f) {
+                continue;
+            }
+            let Ok(v) = serde_json::from_str::<Value>(&std::fs::read_to_string(&f).unwrap_or_default()) else { continue };
+            ev.class("regression-input");
+            if v["leg"] == "e2e" {
+                let stmts: Vec<EStmt> = v["statements"].as_array().map(|a| a.iter().filter_map(EStmt::from_json).collect()).unwrap_or_default();
+                if !stmts.is_empty() && !stmts.iter().any(|s| s.known_construct(known).is_some() || (known.i32_arith && s.has_i32_arith_construct()) || (known.empty_list && s.has_empty_list_construct())) {
+                    regression_programs.push(stmts);
+                }
+            } else if let Some(c) = Case::from_json(&v) {
+                ev.case(Some(util::hash_of(&c)));
+                let (fails, _) = judge_case(&c, known);
+                report(&mut out, &mut ev, &c, &fails);
+            }
+        }
+    }
 
     // ---------------- leg 1: in-process
     let t_inproc = std::time::Instant::now(); // evidence only, never a verdict
@@ -1507,6 +1573,9 @@ fn main() {
             if known.i32_fallback && s.avoid_i32_fallback() {
                 ev.exclude(K_I32);
             }
+            if known.i32_arith && s.avoid_i32_arith() {
+                ev.exclude(K_I32_ARITH);
+            }
             if known.empty_list && s.avoid_empty_list() {
                 ev.exclude(K_EMPTY_LIST);
             }
@@ -1532,6 +1601,9 @@ fn main() {
         if known.i32_fallback && e.avoid_i32_fallback() {
             ev.exclude(K_I32);
         }
+        if known.i32_arith && e.avoid_i32_arith() {
+            ev.exclude(K_I32_ARITH);
+        }
         if known.empty_list && e.avoid_empty_list() {
             // an index into the 1-element list must stay out of range
             if let EStmt::Index { i, .. } = &mut e {
@@ -1543,6 +1615,8 @@ fn main() {
         stmts.push(e);
         programs.push(stmts);
     }
+    let n_generated = programs.len();
+    programs.extend(regression_programs);
     let spaced = known.parse_cc;
     for p in &programs {
         for s in p {
@@ -1557,7 +1631,7 @@ fn main() {
     if let Some(p0) = programs.first() {
         ev.sample(json!({"leg": "e2e", "first_statements_of_program_0": util::truncate(&render_program(&p0[..p0.len().min(5)], spaced), 1200)}));
     }
-    if let Some(pz) = programs.last() {
+    if let Some(pz) = programs[..n_generated].last() {
         ev.sample(json!({"leg": "e2e-error", "program": util::truncate(&render_program(pz, spaced), 1500), "expected_error": format!("{:?}", pz.last().map(|s| s.expect()))}));
     }
     let farm = farm.unwrap_or_else(|| {
